@@ -420,6 +420,9 @@ type vfServerScript struct {
 	// StopDelayMs: a well-behaved but slow server - it takes that long (well inside the runner's graceful-shutdown
 	// period) to log its stop and exit after having been asked to
 	StopDelayMs int `json:"stopDelayMs"`
+	// EmptyHost: the server leaves the host of its start response empty (server_compat.proto: "leave the host field
+	// empty or explicitly set to 127.0.0.1")
+	EmptyHost bool `json:"emptyHost,omitempty"`
 }
 
 func vfPeerServerMain() int {
@@ -489,6 +492,9 @@ func vfPeerServerMain() int {
 		_, _ = os.Stdout.Write([]byte{0x7f, 0xff, 0xff, 0xff, 1, 2, 3})
 	default:
 		resp := &conformancev1.ServerCompatResponse{Host: "127.0.0.1", Port: port}
+		if script.EmptyHost {
+			resp.Host = ""
+		}
 		if req.UseTls && fault != "no-cert" {
 			resp.PemCert = []byte("CERT-OF-" + identity)
 		}
